@@ -221,6 +221,8 @@ def main(tier):
     n1 = m01b(res, mod, tier)
     n2 = m01e(res, mod, tier)
     pipeline_probe(res)
+    from checks import mixed
+    n2 += mixed.run_property(res, mod, 'C01', tier)
     from kani import runner
     runner.run_for(res, 'C01', tier)        # K01a (parse_number small inputs) and K01c = the progress lemma of the ParseState primitives
     res.bounds = {'parse_number': 'quick: free ASCII <= 12 chars + families 0x+18 alnum, 21 decimal digits, 0+23 octal digits; thorough: free ASCII <= 24',
